@@ -172,10 +172,10 @@ Fixpoint scopes_eqb (a b : list scope) : bool :=
   end.
 
 (* a correspondence case: inputs, the history with the values the implementation read
-   at every operation, and the implementation's final ctx.inputs *)
-Definition agrees (c : list Z * list (op * list Z) * list scope) : bool :=
-  let '(ins, evs, fin) := c in
+   at every operation, the implementation's final ctx.inputs and ctx.use_top_input *)
+Definition agrees (c : list Z * list (op * list Z) * list scope * bool) : bool :=
+  let '(ins, evs, fin, ut) := c in
   let a := run ins (map fst evs) in
   zlists_eqb (map ev_vals (r_events a)) (map snd evs)
   && scopes_eqb (scopes (r_state a)) fin
-  && negb (use_top (r_state a)).
+  && Bool.eqb (use_top (r_state a)) ut.
